@@ -9,7 +9,7 @@
 use pavex::config::{ConfigLoader, ConfigProfile};
 use serde::{Deserialize, Serialize};
 use serde_json::{Value, json};
-use std::collections::{BTreeMap, BTreeSet};
+use std::collections::{BTreeMap, BTreeSet, HashMap};
 use std::path::{Path, PathBuf};
 use std::process::Command;
 use std::sync::atomic::{AtomicUsize, Ordering};
@@ -21,6 +21,7 @@ const WORKERS: usize = 16;
 // Subject-side types (what an application would write)
 // ---------------------------------------------------------------------------------------------
 
+/// Profile type 1: derived implementation, names `dev` / `prod`.
 #[derive(ConfigProfile, Debug, Clone, Copy, PartialEq, Eq)]
 pub enum Profile {
     #[px(profile = "dev")]
@@ -29,43 +30,85 @@ pub enum Profile {
     Production,
 }
 
+/// Profile type 2: hand-written implementation (as documented on the trait) whose names contain a
+/// dot, which the derive macro forbids: `prod.eu` / `prod.us`.
+#[derive(Debug, Clone, Copy, PartialEq, Eq)]
+pub enum Region {
+    ProdEu,
+    ProdUs,
+}
+#[derive(Debug)]
+pub struct UnknownRegion(String);
+impl std::fmt::Display for UnknownRegion {
+    fn fmt(&self, f: &mut std::fmt::Formatter<'_>) -> std::fmt::Result {
+        write!(f, "Invalid profile: `{}`. Valid options are: `prod.eu`, `prod.us`", self.0)
+    }
+}
+impl std::error::Error for UnknownRegion {}
+impl std::str::FromStr for Region {
+    type Err = UnknownRegion;
+    fn from_str(s: &str) -> Result<Self, Self::Err> {
+        match s {
+            "prod.eu" => Ok(Region::ProdEu),
+            "prod.us" => Ok(Region::ProdUs),
+            _ => Err(UnknownRegion(s.to_string())),
+        }
+    }
+}
+impl AsRef<str> for Region {
+    fn as_ref(&self) -> &str {
+        match self {
+            Region::ProdEu => "prod.eu",
+            Region::ProdUs => "prod.us",
+        }
+    }
+}
+impl ConfigProfile for Region {}
+
 #[derive(Debug, Deserialize)]
 struct OptB {
     c: Option<String>,
     d: Option<u64>,
+    m: Option<Vec<String>>,
 }
 #[derive(Debug, Deserialize)]
 struct OptCfg {
     a: Option<String>,
     b: Option<OptB>,
+    l: Option<Vec<String>>,
 }
 #[derive(Debug, Deserialize)]
 struct ReqB {
     c: String,
     d: u64,
+    m: Vec<String>,
 }
 #[derive(Debug, Deserialize)]
 struct ReqCfg {
     a: String,
     b: ReqB,
+    l: Vec<String>,
 }
 #[derive(Debug, Deserialize)]
 #[serde(deny_unknown_fields)]
 struct DenyB {
     c: Option<String>,
     d: Option<u64>,
+    m: Option<Vec<String>>,
 }
 #[derive(Debug, Deserialize)]
 #[serde(deny_unknown_fields)]
 struct DenyCfg {
     a: Option<String>,
     b: Option<DenyB>,
+    l: Option<Vec<String>>,
 }
 /// Like `OptCfg` plus a field literally called `profile`: `PX_PROFILE` must never populate it.
 #[derive(Debug, Deserialize)]
 struct ProbeCfg {
     a: Option<String>,
     b: Option<OptB>,
+    l: Option<Vec<String>>,
     profile: Option<Value>,
 }
 
@@ -76,8 +119,50 @@ struct ProbeCfg {
 const BASE: u8 = 1;
 const PROF: u8 = 2;
 const ENV: u8 = 4;
-const KEYS: [&str; 3] = ["a", "b.c", "b.d"];
-const ENV_NAMES: [&str; 3] = ["PX_A", "PX_B__C", "PX_B__D"];
+const NK: usize = 5;
+const KEYS: [&str; NK] = ["a", "b.c", "b.d", "l", "b.m"];
+const KEY_KIND: [&str; NK] = ["top", "nested", "nested", "list-top", "list-nested"];
+const ENV_NAMES: [&str; NK] = ["PX_A", "PX_B__C", "PX_B__D", "PX_L", "PX_B__M"];
+type Assign = [u8; NK];
+type Vals = [Value; NK];
+
+#[derive(Debug, Clone, Copy, PartialEq, Eq, Hash, PartialOrd, Ord, Serialize, Deserialize)]
+enum PName {
+    #[serde(rename = "dev")]
+    Dev,
+    #[serde(rename = "prod")]
+    Prod,
+    #[serde(rename = "prod.eu")]
+    ProdEu,
+    #[serde(rename = "prod.us")]
+    ProdUs,
+}
+impl PName {
+    fn as_str(self) -> &'static str {
+        match self {
+            PName::Dev => "dev",
+            PName::Prod => "prod",
+            PName::ProdEu => "prod.eu",
+            PName::ProdUs => "prod.us",
+        }
+    }
+    fn other(self) -> PName {
+        match self {
+            PName::Dev => PName::Prod,
+            PName::Prod => PName::Dev,
+            PName::ProdEu => PName::ProdUs,
+            PName::ProdUs => PName::ProdEu,
+        }
+    }
+    /// hand-written `ConfigProfile` impl (`Region`) rather than the derived one (`Profile`)
+    fn manual(self) -> bool {
+        matches!(self, PName::ProdEu | PName::ProdUs)
+    }
+    fn ptype(self) -> &'static str {
+        if self.manual() { "manual" } else { "derived" }
+    }
+}
+const PNAMES: [PName; 4] = [PName::Dev, PName::Prod, PName::ProdEu, PName::ProdUs];
 
 #[derive(Debug, Clone, Copy, PartialEq, Eq, Hash, PartialOrd, Ord, Serialize, Deserialize)]
 #[serde(rename_all = "kebab-case")]
@@ -86,7 +171,7 @@ enum PMode {
     EnvValid,
     /// `.profile(p)`, `PX_PROFILE` unset
     Explicit,
-    /// `.profile(p)`, `PX_PROFILE=<the other profile>`
+    /// `.profile(p)`, `PX_PROFILE=<the other profile of the same type>`
     ExplicitEnvOther,
     /// `.profile(p)`, `PX_PROFILE=staging` (not a valid profile)
     ExplicitEnvInvalid,
@@ -163,9 +248,9 @@ enum FMode {
 
 #[derive(Debug, Clone, PartialEq, Eq, Hash, PartialOrd, Ord, Serialize, Deserialize)]
 struct Case {
-    /// bitmask per key (a, b.c, b.d): 1 = base.yml, 2 = <profile>.yml, 4 = env
-    assign: [u8; 3],
-    profile: String,
+    /// bitmask per key (a, b.c, b.d, l, b.m): 1 = base.yml, 2 = <profile>.yml, 4 = env
+    assign: Assign,
+    profile: PName,
     pmode: PMode,
     dmode: DMode,
     target: Target,
@@ -175,23 +260,44 @@ struct Case {
     control_unknown_env: bool,
 }
 
-fn other_profile(p: &str) -> &'static str {
-    if p == "dev" { "prod" } else { "dev" }
+fn name_of<T: Serialize>(v: T) -> String {
+    json!(v).as_str().unwrap_or("?").to_string()
 }
 
-/// Source-tagged distinct values. `tag` in base|profile|env|other|decoy|staging
+const TAGS: [&str; 7] = ["base", "profile", "env", "other", "decoy", "staging", "stem"];
+
+/// Source-tagged distinct values. Lists have source-dependent lengths, so that concatenation,
+/// index-wise merging and truncation are all distinguishable from whole-value replacement.
 fn sval(key: usize, tag: &str) -> Value {
+    let list = |prefix: &str, n: usize| -> Value {
+        json!((1..=n).map(|i| format!("{prefix}-{tag}-{i}")).collect::<Vec<_>>())
+    };
     match key {
         0 => json!(format!("a-{tag}")),
         1 => json!(format!("c-{tag}")),
-        _ => json!(match tag {
+        2 => json!(match tag {
             "base" => 11u64,
             "profile" => 22,
             "env" => 33,
             "other" => 44,
             "decoy" => 55,
             "staging" => 66,
+            "stem" => 77,
             _ => 99,
+        }),
+        3 => list("l", match tag {
+            "base" => 2,
+            "profile" => 3,
+            "env" => 1,
+            "other" => 2,
+            _ => 1,
+        }),
+        _ => list("m", match tag {
+            "base" => 1,
+            "profile" => 2,
+            "env" => 3,
+            "other" => 2,
+            _ => 1,
         }),
     }
 }
@@ -200,20 +306,36 @@ fn tag_of(key: usize, v: &Value) -> String {
     if v.is_null() {
         return "none".into();
     }
-    for t in ["base", "profile", "env", "other", "decoy", "staging"] {
+    for t in TAGS {
         if &sval(key, t) == v {
             return t.into();
         }
     }
+    if let Some(arr) = v.as_array() {
+        // a list that is not exactly one source's list: name the sources of its elements
+        let mut tags: Vec<String> = Vec::new();
+        for e in arr {
+            let t = e
+                .as_str()
+                .and_then(|s| s.split('-').nth(1))
+                .filter(|t| TAGS.contains(t))
+                .unwrap_or("unrecognised")
+                .to_string();
+            if tags.last() != Some(&t) {
+                tags.push(t);
+            }
+        }
+        return format!("elements[{}]", tags.join("+"));
+    }
     "unrecognised".into()
 }
 
-fn yaml_doc(vals: [Option<Value>; 3]) -> String {
+fn yaml_doc(vals: [Option<Value>; NK]) -> String {
     let mut s = String::new();
     if let Some(a) = &vals[0] {
         s += &format!("a: {a}\n");
     }
-    if vals[1].is_some() || vals[2].is_some() {
+    if vals[1].is_some() || vals[2].is_some() || vals[4].is_some() {
         s += "b:\n";
         if let Some(c) = &vals[1] {
             s += &format!("  c: {c}\n");
@@ -221,6 +343,17 @@ fn yaml_doc(vals: [Option<Value>; 3]) -> String {
         if let Some(d) = &vals[2] {
             s += &format!("  d: {d}\n");
         }
+        if let Some(m) = &vals[4] {
+            // block sequence
+            s += "  m:\n";
+            for e in m.as_array().into_iter().flatten() {
+                s += &format!("    - {e}\n");
+            }
+        }
+    }
+    if let Some(l) = &vals[3] {
+        // flow sequence
+        s += &format!("l: {l}\n");
     }
     if s.is_empty() {
         s = "{}\n".into();
@@ -228,9 +361,9 @@ fn yaml_doc(vals: [Option<Value>; 3]) -> String {
     s
 }
 
-fn yaml_tagged(assign: &[u8; 3], bit: u8, tag: &str) -> String {
-    let mut vals = [None, None, None];
-    for k in 0..3 {
+fn yaml_tagged(assign: &Assign, bit: u8, tag: &str) -> String {
+    let mut vals: [Option<Value>; NK] = Default::default();
+    for k in 0..NK {
         if assign[k] & bit != 0 {
             vals[k] = Some(sval(k, tag));
         }
@@ -239,12 +372,31 @@ fn yaml_tagged(assign: &[u8; 3], bit: u8, tag: &str) -> String {
 }
 
 fn yaml_all(tag: &str) -> String {
-    yaml_doc([Some(sval(0, tag)), Some(sval(1, tag)), Some(sval(2, tag))])
+    yaml_tagged(&[7; NK], 7, tag)
 }
 
 // ---------------------------------------------------------------------------------------------
 // Scratch layout + environment of a case
 // ---------------------------------------------------------------------------------------------
+
+/// A scratch directory owned by one thread, with a cache of what was last written to the files of
+/// its persistent trees (so that unchanged files are not rewritten for every case).
+struct Scratch {
+    root: PathBuf,
+    written: HashMap<PathBuf, String>,
+}
+impl Scratch {
+    fn new(root: PathBuf) -> Scratch {
+        Scratch {
+            root,
+            written: HashMap::new(),
+        }
+    }
+    fn cleanup(&mut self) {
+        let _ = std::fs::remove_dir_all(&self.root);
+        self.written.clear();
+    }
+}
 
 struct Setup {
     cwd: PathBuf,
@@ -253,39 +405,39 @@ struct Setup {
     env: Vec<(String, String)>,
     /// argument for `.profile(..)`
     explicit: Option<String>,
-    /// (path, content) of every file written, for the replay artefact
+    /// (path, content) of every file of the tree, for the replay artefact
     files: Vec<(String, String)>,
 }
 
-/// `write` = false: the file belongs to the static part of an already prepared tree, only list it.
-fn mkfile(files: &mut Vec<(String, String)>, write: bool, dir: &Path, name: &str, content: String) {
+/// `cached` = the file lives in a persistent tree: skip the write if the same content was written
+/// there last time.
+fn mkfile(sc: &mut Scratch, files: &mut Vec<(String, String)>, cached: bool, dir: &Path, name: &str, content: String) {
     let p = dir.join(name);
-    if write {
+    let skip = cached && sc.written.get(&p) == Some(&content);
+    if !skip {
         if let Err(e) = std::fs::create_dir_all(dir) {
             verif_common::machinery_error(&format!("mkdir {}: {e}", dir.display()));
         }
         if let Err(e) = std::fs::write(&p, &content) {
             verif_common::machinery_error(&format!("write {}: {e}", p.display()));
         }
+        if cached {
+            sc.written.insert(p.clone(), content.clone());
+        }
     }
     files.push((p.display().to_string(), content));
 }
 
-fn dmode_name(d: DMode) -> String {
-    json!(d).as_str().unwrap_or("?").to_string()
-}
-
-/// Prepare the scratch tree of a case below `root` (a directory owned by the calling worker).
-/// For `FMode::All` (the bulk of the run) the tree `root/all-<dmode>` is kept between cases: its
-/// static part (directories, decoy directory, staging.yml) is written once, and the three files
-/// that depend on the case (base.yml, dev.yml, prod.yml of the real directory) are rewritten for
-/// every case. Every other family gets a tree rebuilt from nothing (`root/misc`).
-fn setup(case: &Case, root: &Path) -> Setup {
+/// Prepare the scratch tree of a case. For `FMode::All` (the bulk of the run) the tree
+/// `root/all-<dmode>-<profile type>` is kept between cases: every file of the tree is (re)written
+/// through the write cache, i.e. only when its content differs from what this thread wrote there
+/// last. Every other family gets a tree rebuilt from nothing (`root/misc`).
+fn setup(case: &Case, sc: &mut Scratch) -> Setup {
     let persistent = case.files == FMode::All;
     let tree = if persistent {
-        root.join(format!("all-{}", dmode_name(case.dmode)))
+        sc.root.join(format!("all-{}-{}", name_of(case.dmode), case.profile.ptype()))
     } else {
-        let t = root.join("misc");
+        let t = sc.root.join("misc");
         if t.exists()
             && let Err(e) = std::fs::remove_dir_all(&t)
         {
@@ -293,12 +445,10 @@ fn setup(case: &Case, root: &Path) -> Setup {
         }
         t
     };
-    let ready_marker = tree.join(".ready");
-    let write_static = !(persistent && ready_marker.exists());
     let g = tree.join("g");
     let p = g.join("p");
     let cwd = p.join("cwd");
-    if write_static
+    if !cwd.is_dir()
         && let Err(e) = std::fs::create_dir_all(&cwd)
     {
         verif_common::machinery_error(&format!("mkdir {}: {e}", cwd.display()));
@@ -318,48 +468,51 @@ fn setup(case: &Case, root: &Path) -> Setup {
     };
     let mut files = Vec::new();
     let prof = case.profile.as_str();
-    let other = other_profile(prof);
+    let other = case.profile.other().as_str();
     let base_doc = yaml_tagged(&case.assign, BASE, "base");
     let prof_doc = yaml_tagged(&case.assign, PROF, "profile");
+    let c = persistent;
+    // files next to the real ones that must never be read: the other profile of the same type,
+    // `staging.yml` (the invalid PX_PROFILE value) and, for dotted profile names, the file named
+    // after the part before the dot (`prod.yml`)
+    let extras = |sc: &mut Scratch, files: &mut Vec<(String, String)>| {
+        mkfile(sc, files, c, &real, &format!("{other}.yml"), yaml_all("other"));
+        mkfile(sc, files, c, &real, "staging.yml", yaml_all("staging"));
+        if case.profile.manual() {
+            mkfile(sc, files, c, &real, "prod.yml", yaml_all("stem"));
+        }
+    };
     match case.files {
         FMode::All => {
-            mkfile(&mut files, true, &real, "base.yml", base_doc);
-            mkfile(&mut files, true, &real, &format!("{prof}.yml"), prof_doc);
-            mkfile(&mut files, true, &real, &format!("{other}.yml"), yaml_all("other"));
-            mkfile(&mut files, write_static, &real, "staging.yml", yaml_all("staging"));
-            for f in ["base.yml", "dev.yml", "prod.yml", "staging.yml"] {
-                mkfile(&mut files, write_static, &up, f, yaml_all("decoy"));
+            mkfile(sc, &mut files, c, &real, "base.yml", base_doc);
+            mkfile(sc, &mut files, c, &real, &format!("{prof}.yml"), prof_doc);
+            extras(sc, &mut files);
+            for f in ["base.yml", "dev.yml", "prod.yml", "prod.eu.yml", "prod.us.yml", "staging.yml"] {
+                mkfile(sc, &mut files, c, &up, f, yaml_all("decoy"));
             }
         }
         FMode::NoProfileFile => {
-            mkfile(&mut files, true, &real, "base.yml", base_doc);
-            mkfile(&mut files, true, &real, &format!("{other}.yml"), yaml_all("other"));
-            mkfile(&mut files, true, &real, "staging.yml", yaml_all("staging"));
+            mkfile(sc, &mut files, c, &real, "base.yml", base_doc);
+            extras(sc, &mut files);
         }
         FMode::NoBaseFile => {
-            mkfile(&mut files, true, &real, &format!("{prof}.yml"), prof_doc);
-            mkfile(&mut files, true, &real, &format!("{other}.yml"), yaml_all("other"));
-            mkfile(&mut files, true, &real, "staging.yml", yaml_all("staging"));
+            mkfile(sc, &mut files, c, &real, &format!("{prof}.yml"), prof_doc);
+            extras(sc, &mut files);
         }
         FMode::NoFiles => {
-            mkfile(&mut files, true, &real, &format!("{other}.yml"), yaml_all("other"));
-            mkfile(&mut files, true, &real, "staging.yml", yaml_all("staging"));
+            extras(sc, &mut files);
         }
         FMode::NoDir => {}
         FMode::SplitDir => {
-            mkfile(&mut files, true, &real, "base.yml", base_doc);
-            mkfile(&mut files, true, &up, &format!("{prof}.yml"), prof_doc);
+            mkfile(sc, &mut files, c, &real, "base.yml", base_doc);
+            mkfile(sc, &mut files, c, &up, &format!("{prof}.yml"), prof_doc);
         }
     }
-    if persistent
-        && write_static
-        && let Err(e) = std::fs::write(&ready_marker, "")
-    {
-        verif_common::machinery_error(&format!("write {}: {e}", ready_marker.display()));
-    }
     let mut env: Vec<(String, String)> = Vec::new();
-    for k in 0..3 {
+    for k in 0..NK {
         if case.assign[k] & ENV != 0 {
+            // strings as written, numbers in decimal, lists in figment's documented TOML-like
+            // syntax: `["x","y"]` (Array delimited by `[]`, String delimited by `"`)
             let v = sval(k, "env");
             let s = match &v {
                 Value::String(s) => s.clone(),
@@ -383,9 +536,7 @@ fn setup(case: &Case, root: &Path) -> Setup {
     }
     env.sort();
     let explicit = match case.pmode {
-        PMode::Explicit | PMode::ExplicitEnvOther | PMode::ExplicitEnvInvalid => {
-            Some(prof.to_string())
-        }
+        PMode::Explicit | PMode::ExplicitEnvOther | PMode::ExplicitEnvInvalid => Some(prof.to_string()),
         _ => None,
     };
     Setup {
@@ -412,44 +563,51 @@ fn error_chain(e: &dyn std::error::Error) -> String {
     s
 }
 
+fn run_loader<P: ConfigProfile>(explicit: Option<P>, confdir: &str, target: &str) -> Value {
+    let mut loader = ConfigLoader::<P>::new();
+    if let Some(p) = explicit {
+        loader = loader.profile(p);
+    }
+    if confdir != "-" {
+        loader = loader.configuration_dir(confdir.to_string());
+    }
+    let res: Result<Value, pavex::config::errors::ConfigLoadError> = match target {
+        "option" => loader.load::<OptCfg>().map(|c| {
+            let (cc, d, m) = c.b.map(|b| (json!(b.c), json!(b.d), json!(b.m))).unwrap_or_default();
+            json!({"a": c.a, "b.c": cc, "b.d": d, "l": c.l, "b.m": m, "profile_field": null})
+        }),
+        "required" => loader.load::<ReqCfg>().map(|c| {
+            json!({"a": c.a, "b.c": c.b.c, "b.d": c.b.d, "l": c.l, "b.m": c.b.m, "profile_field": null})
+        }),
+        "deny-unknown" => loader.load::<DenyCfg>().map(|c| {
+            let (cc, d, m) = c.b.map(|b| (json!(b.c), json!(b.d), json!(b.m))).unwrap_or_default();
+            json!({"a": c.a, "b.c": cc, "b.d": d, "l": c.l, "b.m": m, "profile_field": null})
+        }),
+        "probe-profile-field" => loader.load::<ProbeCfg>().map(|c| {
+            let (cc, d, m) = c.b.map(|b| (json!(b.c), json!(b.d), json!(b.m))).unwrap_or_default();
+            json!({"a": c.a, "b.c": cc, "b.d": d, "l": c.l, "b.m": m, "profile_field": c.profile})
+        }),
+        other => return json!({"outcome": "child-usage", "msg": format!("target {other}")}),
+    };
+    match res {
+        Ok(v) => json!({"outcome": "ok", "values": v}),
+        Err(e) => json!({"outcome": "err", "chain": error_chain(&e)}),
+    }
+}
+
 fn child_main(argv: &[String]) -> ! {
-    // argv: <target> <explicit-profile|-> <confdir|->
-    let target = argv.first().cloned().unwrap_or_default();
-    let explicit = argv.get(1).cloned().unwrap_or_else(|| "-".into());
-    let confdir = argv.get(2).cloned().unwrap_or_else(|| "-".into());
+    // argv: <target> <profile type: derived|manual> <explicit-profile|-> <confdir|->
+    let arg = |i: usize| argv.get(i).cloned().unwrap_or_else(|| "-".into());
+    let (target, ptype, explicit, confdir) = (arg(0), arg(1), arg(2), arg(3));
     let run = move || -> Value {
-        let mut loader = ConfigLoader::<Profile>::new();
-        match explicit.as_str() {
-            "-" => {}
-            "dev" => loader = loader.profile(Profile::Development),
-            "prod" => loader = loader.profile(Profile::Production),
-            other => return json!({"outcome": "child-usage", "msg": format!("profile {other}")}),
-        }
-        if confdir != "-" {
-            loader = loader.configuration_dir(confdir.clone());
-        }
-        let ob = |c: Option<String>, d: Option<u64>| (json!(c), json!(d));
-        let res: Result<Value, pavex::config::errors::ConfigLoadError> = match target.as_str() {
-            "option" => loader.load::<OptCfg>().map(|c| {
-                let (cc, d) = c.b.map(|b| ob(b.c, b.d)).unwrap_or((Value::Null, Value::Null));
-                json!({"a": c.a, "b.c": cc, "b.d": d, "profile_field": null})
-            }),
-            "required" => loader.load::<ReqCfg>().map(|c| {
-                json!({"a": c.a, "b.c": c.b.c, "b.d": c.b.d, "profile_field": null})
-            }),
-            "deny-unknown" => loader.load::<DenyCfg>().map(|c| {
-                let (cc, d) = c.b.map(|b| ob(b.c, b.d)).unwrap_or((Value::Null, Value::Null));
-                json!({"a": c.a, "b.c": cc, "b.d": d, "profile_field": null})
-            }),
-            "probe-profile-field" => loader.load::<ProbeCfg>().map(|c| {
-                let (cc, d) = c.b.map(|b| ob(b.c, b.d)).unwrap_or((Value::Null, Value::Null));
-                json!({"a": c.a, "b.c": cc, "b.d": d, "profile_field": c.profile})
-            }),
-            other => return json!({"outcome": "child-usage", "msg": format!("target {other}")}),
-        };
-        match res {
-            Ok(v) => json!({"outcome": "ok", "values": v}),
-            Err(e) => json!({"outcome": "err", "chain": error_chain(&e)}),
+        match (ptype.as_str(), explicit.as_str()) {
+            ("derived", "-") => run_loader::<Profile>(None, &confdir, &target),
+            ("derived", "dev") => run_loader(Some(Profile::Development), &confdir, &target),
+            ("derived", "prod") => run_loader(Some(Profile::Production), &confdir, &target),
+            ("manual", "-") => run_loader::<Region>(None, &confdir, &target),
+            ("manual", "prod.eu") => run_loader(Some(Region::ProdEu), &confdir, &target),
+            ("manual", "prod.us") => run_loader(Some(Region::ProdUs), &confdir, &target),
+            (t, p) => json!({"outcome": "child-usage", "msg": format!("profile type {t} / profile {p}")}),
         }
     };
     std::panic::set_hook(Box::new(|_| {}));
@@ -481,37 +639,44 @@ fn child_main(argv: &[String]) -> ! {
 
 #[derive(Debug, Clone, PartialEq)]
 enum Observed {
-    Ok { vals: [Value; 3], profile_field: Value },
+    Ok { vals: Vals, profile_field: Value },
     Err { chain: String },
     Panic { msg: String },
+}
+
+fn vals_json(v: &Vals) -> Value {
+    let mut m = serde_json::Map::new();
+    for k in 0..NK {
+        m.insert(KEYS[k].to_string(), v[k].clone());
+    }
+    Value::Object(m)
 }
 
 impl Observed {
     fn to_json(&self) -> Value {
         match self {
-            Observed::Ok { vals, profile_field } => json!({"outcome": "ok", "a": vals[0], "b.c": vals[1], "b.d": vals[2], "profile_field": profile_field}),
+            Observed::Ok { vals, profile_field } => json!({"outcome": "ok", "values": vals_json(vals), "profile_field": profile_field}),
             Observed::Err { chain } => json!({"outcome": "err", "chain": chain}),
             Observed::Panic { msg } => json!({"outcome": "panic", "msg": msg}),
+        }
+    }
+    fn class(&self) -> String {
+        match self {
+            Observed::Ok { .. } => "ok".to_string(),
+            Observed::Err { chain } => format!("err:{}", err_class(chain)),
+            Observed::Panic { .. } => "panic".to_string(),
         }
     }
 }
 
 static SPAWNED: AtomicUsize = AtomicUsize::new(0);
 
-fn target_arg(t: Target) -> &'static str {
-    match t {
-        Target::Option => "option",
-        Target::Required => "required",
-        Target::DenyUnknown => "deny-unknown",
-        Target::ProbeProfileField => "probe-profile-field",
-    }
-}
-
-fn run_case(case: &Case, root: &Path, exe: &Path) -> (Observed, Setup) {
-    let su = setup(case, root);
+fn run_case(case: &Case, sc: &mut Scratch, exe: &Path) -> (Observed, Setup) {
+    let su = setup(case, sc);
     let mut cmd = Command::new(exe);
     cmd.arg("--child")
-        .arg(target_arg(case.target))
+        .arg(name_of(case.target))
+        .arg(case.profile.ptype())
         .arg(su.explicit.as_deref().unwrap_or("-"))
         .arg(su.confdir_arg.as_deref().unwrap_or("-"))
         .env_clear()
@@ -543,23 +708,27 @@ fn run_case(case: &Case, root: &Path, exe: &Path) -> (Observed, Setup) {
             su.env, seen_env
         ));
     }
-    let want_cwd = std::fs::canonicalize(&su.cwd).unwrap_or(su.cwd.clone());
-    if Path::new(v["seen_cwd"].as_str().unwrap_or("")) != want_cwd {
-        verif_common::machinery_error(&format!(
-            "child cwd not controlled: wanted {}, child saw {}",
-            want_cwd.display(),
-            v["seen_cwd"]
-        ));
+    if v["seen_cwd"].as_str() != su.cwd.to_str() {
+        let want_cwd = std::fs::canonicalize(&su.cwd).unwrap_or(su.cwd.clone());
+        if Path::new(v["seen_cwd"].as_str().unwrap_or("")) != want_cwd {
+            verif_common::machinery_error(&format!(
+                "child cwd not controlled: wanted {}, child saw {}",
+                want_cwd.display(),
+                v["seen_cwd"]
+            ));
+        }
     }
     let obs = match v["outcome"].as_str() {
-        Some("ok") => Observed::Ok {
-            vals: [
-                v["values"]["a"].clone(),
-                v["values"]["b.c"].clone(),
-                v["values"]["b.d"].clone(),
-            ],
-            profile_field: v["values"]["profile_field"].clone(),
-        },
+        Some("ok") => {
+            let mut vals: Vals = Default::default();
+            for k in 0..NK {
+                vals[k] = v["values"][KEYS[k]].clone();
+            }
+            Observed::Ok {
+                vals,
+                profile_field: v["values"]["profile_field"].clone(),
+            }
+        }
         Some("err") => Observed::Err {
             chain: v["chain"].as_str().unwrap_or("").to_string(),
         },
@@ -580,13 +749,13 @@ enum Expect {
     /// the property forces an error
     MustErr(&'static str),
     /// the property forces exactly these values
-    MustOk([Value; 3]),
+    MustOk(Vals),
     /// a file/directory is missing: the property text and docs force neither Ok nor Err, but if
     /// the load succeeds the values must still follow the precedence over the sources that exist
-    ErrOrOk([Value; 3]),
+    ErrOrOk(Vals),
     /// split directory: per key either reading (docs: ancestor profile file not used; code:
     /// used) is accepted; observation only
-    SplitEither { docs: [Value; 3], code: [Value; 3] },
+    SplitEither { docs: Vals, code: Vals },
 }
 
 fn winner(bits: u8) -> &'static str {
@@ -601,9 +770,10 @@ fn winner(bits: u8) -> &'static str {
     }
 }
 
-fn merged(assign: &[u8; 3], mask: u8) -> [Value; 3] {
-    let mut out = [Value::Null, Value::Null, Value::Null];
-    for k in 0..3 {
+/// Whole-value replacement for every key, lists included.
+fn merged(assign: &Assign, mask: u8) -> Vals {
+    let mut out: Vals = Default::default();
+    for k in 0..NK {
         let w = winner(assign[k] & mask);
         if w != "none" {
             out[k] = sval(k, w);
@@ -622,31 +792,17 @@ fn expect(case: &Case) -> Expect {
         return Expect::MustErr("control-unknown-env-key");
     }
     let full = merged(&case.assign, BASE | PROF | ENV);
-    let required_missing = |vals: &[Value; 3]| case.target == Target::Required && vals.iter().any(|v| v.is_null());
+    let required_missing = case.target == Target::Required && full.iter().any(|v| v.is_null());
+    if required_missing {
+        return Expect::MustErr("required-key-missing");
+    }
     match case.files {
-        FMode::All => {
-            if required_missing(&full) {
-                Expect::MustErr("required-key-missing")
-            } else {
-                Expect::MustOk(full)
-            }
-        }
-        FMode::SplitDir => {
-            let docs = merged(&case.assign, BASE | ENV);
-            if required_missing(&full) {
-                // missing under both readings
-                Expect::MustErr("required-key-missing")
-            } else {
-                Expect::SplitEither { docs, code: full }
-            }
-        }
-        _ => {
-            if required_missing(&full) {
-                Expect::MustErr("required-key-missing")
-            } else {
-                Expect::ErrOrOk(full)
-            }
-        }
+        FMode::All => Expect::MustOk(full),
+        FMode::SplitDir => Expect::SplitEither {
+            docs: merged(&case.assign, BASE | ENV),
+            code: full,
+        },
+        _ => Expect::ErrOrOk(full),
     }
 }
 
@@ -667,82 +823,6 @@ fn err_class(chain: &str) -> &'static str {
     }
 }
 
-/// Returns the list of (violation key, description) for one case; empty = conforms.
-fn judge(case: &Case, exp: &Expect, obs: &Observed) -> Vec<(String, String)> {
-    let mut out = Vec::new();
-    let cmp_vals = |out: &mut Vec<(String, String)>, want: &[Value; 3], got: &[Value; 3]| {
-        for k in 0..3 {
-            if want[k] != got[k] {
-                let kind = if k == 0 { "top" } else { "nested" };
-                out.push((
-                    format!("precedence:{kind}:want={}:got={}", tag_of(k, &want[k]), tag_of(k, &got[k])),
-                    format!(
-                        "key `{}` assigned to sources {:?}: reference value {} (from {}), loader produced {} (from {})",
-                        KEYS[k],
-                        sources_of(case.assign[k]),
-                        want[k],
-                        tag_of(k, &want[k]),
-                        got[k],
-                        tag_of(k, &got[k])
-                    ),
-                ));
-            }
-        }
-    };
-    match (exp, obs) {
-        (_, Observed::Panic { msg }) => out.push((
-            "loader-panicked".into(),
-            format!("ConfigLoader::load panicked: {msg}"),
-        )),
-        (Expect::MustErr(reason), Observed::Ok { vals, .. }) => out.push((
-            format!("unexpected-ok:{reason}"),
-            format!("load returned Ok({vals:?}) although the property requires an error ({reason})"),
-        )),
-        (Expect::MustErr(_), Observed::Err { .. }) => {}
-        (Expect::MustOk(want), Observed::Ok { vals, profile_field }) => {
-            cmp_vals(&mut out, want, vals);
-            if !profile_field.is_null() {
-                out.push((
-                    "px-profile-surfaced-as-key".into(),
-                    format!("PX_PROFILE was deserialized into the configuration field `profile` = {profile_field}"),
-                ));
-            }
-        }
-        (Expect::MustOk(_), Observed::Err { chain }) => out.push((
-            format!("unexpected-err:{}", err_class(chain)),
-            format!("load returned Err although every source is well-formed and every needed key is present: {chain}"),
-        )),
-        (Expect::ErrOrOk(want), Observed::Ok { vals, profile_field }) => {
-            cmp_vals(&mut out, want, vals);
-            if !profile_field.is_null() {
-                out.push(("px-profile-surfaced-as-key".into(), format!("field `profile` = {profile_field}")));
-            }
-        }
-        (Expect::ErrOrOk(_), Observed::Err { chain }) => {
-            // acceptable as long as it is not PX_PROFILE leaking into a deny_unknown_fields struct
-            if err_class(chain) == "unknown-field-profile" {
-                out.push(("unexpected-err:unknown-field-profile".into(), chain.clone()));
-            }
-        }
-        (Expect::SplitEither { docs, code }, Observed::Ok { vals, profile_field }) => {
-            for k in 0..3 {
-                if vals[k] != docs[k] && vals[k] != code[k] {
-                    let kind = if k == 0 { "top" } else { "nested" };
-                    out.push((
-                        format!("precedence:{kind}:want={}:got={}", tag_of(k, &code[k]), tag_of(k, &vals[k])),
-                        format!("split directory, key `{}`: got {} ; accepted {} or {}", KEYS[k], vals[k], docs[k], code[k]),
-                    ));
-                }
-            }
-            if !profile_field.is_null() {
-                out.push(("px-profile-surfaced-as-key".into(), format!("field `profile` = {profile_field}")));
-            }
-        }
-        (Expect::SplitEither { .. }, Observed::Err { .. }) => {}
-    }
-    out
-}
-
 fn sources_of(bits: u8) -> Vec<&'static str> {
     let mut v = Vec::new();
     if bits & BASE != 0 {
@@ -757,12 +837,82 @@ fn sources_of(bits: u8) -> Vec<&'static str> {
     v
 }
 
+/// Returns the list of (violation key, description) for one case; empty = conforms.
+fn judge(case: &Case, exp: &Expect, obs: &Observed) -> Vec<(String, String)> {
+    let mut out = Vec::new();
+    let cmp_vals = |out: &mut Vec<(String, String)>, want: &Vals, got: &Vals| {
+        for k in 0..NK {
+            if want[k] != got[k] {
+                out.push((
+                    format!("precedence:{}:want={}:got={}", KEY_KIND[k], tag_of(k, &want[k]), tag_of(k, &got[k])),
+                    format!(
+                        "key `{}` assigned to sources {:?}: reference value {} (from {}), loader produced {} (from {})",
+                        KEYS[k],
+                        sources_of(case.assign[k]),
+                        want[k],
+                        tag_of(k, &want[k]),
+                        got[k],
+                        tag_of(k, &got[k])
+                    ),
+                ));
+            }
+        }
+    };
+    let probe = |out: &mut Vec<(String, String)>, profile_field: &Value| {
+        if !profile_field.is_null() {
+            out.push((
+                "px-profile-surfaced-as-key".into(),
+                format!("PX_PROFILE was deserialized into the configuration field `profile` = {profile_field}"),
+            ));
+        }
+    };
+    match (exp, obs) {
+        (_, Observed::Panic { msg }) => out.push(("loader-panicked".into(), format!("ConfigLoader::load panicked: {msg}"))),
+        (Expect::MustErr(reason), Observed::Ok { vals, .. }) => out.push((
+            format!("unexpected-ok:{reason}"),
+            format!("load returned Ok({}) although the property requires an error ({reason})", vals_json(vals)),
+        )),
+        (Expect::MustErr(_), Observed::Err { .. }) => {}
+        (Expect::MustOk(want), Observed::Ok { vals, profile_field }) => {
+            cmp_vals(&mut out, want, vals);
+            probe(&mut out, profile_field);
+        }
+        (Expect::MustOk(_), Observed::Err { chain }) => out.push((
+            format!("unexpected-err:{}", err_class(chain)),
+            format!("load returned Err although every source is well-formed and every needed key is present: {chain}"),
+        )),
+        (Expect::ErrOrOk(want), Observed::Ok { vals, profile_field }) => {
+            cmp_vals(&mut out, want, vals);
+            probe(&mut out, profile_field);
+        }
+        (Expect::ErrOrOk(_), Observed::Err { chain }) => {
+            // acceptable as long as it is not PX_PROFILE leaking into a deny_unknown_fields struct
+            if err_class(chain) == "unknown-field-profile" {
+                out.push(("unexpected-err:unknown-field-profile".into(), chain.clone()));
+            }
+        }
+        (Expect::SplitEither { docs, code }, Observed::Ok { vals, profile_field }) => {
+            for k in 0..NK {
+                if vals[k] != docs[k] && vals[k] != code[k] {
+                    out.push((
+                        format!("precedence:{}:want={}:got={}", KEY_KIND[k], tag_of(k, &code[k]), tag_of(k, &vals[k])),
+                        format!("split directory, key `{}`: got {} ; accepted {} or {}", KEYS[k], vals[k], docs[k], code[k]),
+                    ));
+                }
+            }
+            probe(&mut out, profile_field);
+        }
+        (Expect::SplitEither { .. }, Observed::Err { .. }) => {}
+    }
+    out
+}
+
 fn exp_json(e: &Expect) -> Value {
     match e {
         Expect::MustErr(r) => json!({"must": "err", "reason": r}),
-        Expect::MustOk(v) => json!({"must": "ok", "a": v[0], "b.c": v[1], "b.d": v[2], "profile_field": null}),
-        Expect::ErrOrOk(v) => json!({"must": "err-or-ok-with", "a": v[0], "b.c": v[1], "b.d": v[2]}),
-        Expect::SplitEither { docs, code } => json!({"must": "either", "docs_reading": docs, "code_reading": code}),
+        Expect::MustOk(v) => json!({"must": "ok", "values": vals_json(v), "profile_field": null}),
+        Expect::ErrOrOk(v) => json!({"must": "err-or-ok-with", "values": vals_json(v)}),
+        Expect::SplitEither { docs, code } => json!({"must": "either", "docs_reading": vals_json(docs), "code_reading": vals_json(code)}),
     }
 }
 
@@ -770,12 +920,46 @@ fn exp_json(e: &Expect) -> Value {
 // Enumeration plan
 // ---------------------------------------------------------------------------------------------
 
-fn all_assigns() -> Vec<[u8; 3]> {
+/// base -> profile -> env -> base
+fn rot(bits: u8) -> u8 {
+    ((bits << 1) & 7) | (bits >> 2)
+}
+
+/// a, b.c, b.d, l each over all 8 subsets (8^4 = 4096); the nested list b.m follows l rotated
+fn main_assigns() -> Vec<Assign> {
     let mut v = Vec::new();
     for a in 0..8u8 {
         for c in 0..8u8 {
             for d in 0..8u8 {
-                v.push([a, c, d]);
+                for l in 0..8u8 {
+                    v.push([a, c, d, l, rot(l)]);
+                }
+            }
+        }
+    }
+    v
+}
+
+/// both lists over all 8x8 subset pairs, scalars in three fixed configurations (192)
+fn list_assigns() -> Vec<Assign> {
+    let mut v = Vec::new();
+    for s in [[0u8, 0, 0], [7, 7, 7], [1, 2, 4]] {
+        for l in 0..8u8 {
+            for m in 0..8u8 {
+                v.push([s[0], s[1], s[2], l, m]);
+            }
+        }
+    }
+    v
+}
+
+/// quick: the three scalar keys over all 8^3 subsets, l tied to a's subset, b.m = rot(l) (512)
+fn tied_assigns() -> Vec<Assign> {
+    let mut v = Vec::new();
+    for a in 0..8u8 {
+        for c in 0..8u8 {
+            for d in 0..8u8 {
+                v.push([a, c, d, a, rot(a)]);
             }
         }
     }
@@ -784,8 +968,8 @@ fn all_assigns() -> Vec<[u8; 3]> {
 
 struct Slice {
     name: &'static str,
-    assigns: Vec<[u8; 3]>,
-    profiles: Vec<&'static str>,
+    assigns: Vec<Assign>,
+    profiles: Vec<PName>,
     pmodes: Vec<PMode>,
     dmodes: Vec<DMode>,
     targets: Vec<Target>,
@@ -803,7 +987,7 @@ impl Slice {
                             n += 1;
                             into.insert(Case {
                                 assign: *a,
-                                profile: p.to_string(),
+                                profile: *p,
                                 pmode: *pm,
                                 dmode: *dm,
                                 target: *t,
@@ -820,60 +1004,86 @@ impl Slice {
 }
 
 fn plan(tier: verif_common::Tier) -> (Vec<Case>, Vec<Value>) {
-    let all = all_assigns();
-    let without = |bits: u8| -> Vec<[u8; 3]> {
-        all.iter().copied().filter(|a| a.iter().all(|x| x & bits == 0)).collect()
+    use DMode::*;
+    use PMode::*;
+    let without = |src: &[Assign], bits: u8| -> Vec<Assign> {
+        src.iter().copied().filter(|a| a.iter().all(|x| x & bits == 0)).collect()
     };
-    let rel_with_ancestor = vec![DMode::RelCwdDefault, DMode::RelCwdNamed, DMode::RelParentDefault];
-    let both = vec!["dev", "prod"];
+    let rel_with_ancestor = vec![RelCwdDefault, RelCwdNamed, RelParentDefault];
+    let every = PNAMES.to_vec();
+    let dotted = vec![PName::ProdEu, PName::ProdUs];
     let mut slices: Vec<Slice> = Vec::new();
+    let mut s = |name, assigns: &[Assign], profiles: &[PName], pmodes: &[PMode], dmodes: &[DMode], targets: &[Target], files| {
+        slices.push(Slice {
+            name,
+            assigns: assigns.to_vec(),
+            profiles: profiles.to_vec(),
+            pmodes: pmodes.to_vec(),
+            dmodes: dmodes.to_vec(),
+            targets: targets.to_vec(),
+            files,
+        })
+    };
     if tier.is_thorough() {
-        slices.push(Slice { name: "main: full product", assigns: all.clone(), profiles: both.clone(), pmodes: PMODES_OK.to_vec(), dmodes: DMODES.to_vec(), targets: TARGETS.to_vec(), files: FMode::All });
-        slices.push(Slice { name: "profile errors: full product (profile label fixed, it is not used)", assigns: all.clone(), profiles: vec!["dev"], pmodes: PMODES_ERR.to_vec(), dmodes: DMODES.to_vec(), targets: TARGETS.to_vec(), files: FMode::All });
-        for (fm, asg, name) in [
-            (FMode::NoProfileFile, without(PROF), "missing <profile>.yml"),
-            (FMode::NoBaseFile, without(BASE), "missing base.yml"),
-            (FMode::NoFiles, without(BASE | PROF), "missing both files"),
-            (FMode::NoDir, without(BASE | PROF), "missing directory"),
-        ] {
-            slices.push(Slice { name, assigns: asg, profiles: both.clone(), pmodes: vec![PMode::EnvValid, PMode::Explicit], dmodes: DMODES.to_vec(), targets: TARGETS.to_vec(), files: fm });
-        }
-        slices.push(Slice { name: "split directory (observation)", assigns: all.clone(), profiles: both.clone(), pmodes: vec![PMode::EnvValid], dmodes: rel_with_ancestor.clone(), targets: vec![Target::Option, Target::Required], files: FMode::SplitDir });
+        let main = main_assigns();
+        let lists = list_assigns();
+        let tied = tied_assigns();
+        let small: Vec<Assign> = tied.iter().chain(lists.iter()).copied().collect::<BTreeSet<_>>().into_iter().collect();
+        let union: Vec<Assign> = main.iter().chain(small.iter()).copied().collect::<BTreeSet<_>>().into_iter().collect();
+        let derived = [PName::Dev, PName::Prod];
+        s("main: full product, derived profiles (a, b.c, b.d, l over 8^4 subsets; b.m = rot(l))", &main, &derived, &PMODES_OK, &DMODES, &TARGETS, FMode::All);
+        s("lists: l x b.m over 8x8 subsets, scalars in {none, everywhere, a@base b.c@profile b.d@env}; full product of the other factors, all four profiles", &lists, &every, &PMODES_OK, &DMODES, &TARGETS, FMode::All);
+        s("dotted profiles (hand-written ConfigProfile): tied assignments (a, b.c, b.d over 8^3, l tied to a, b.m = rot(l)); full product of the other factors", &tied, &dotted, &PMODES_OK, &DMODES, &TARGETS, FMode::All);
+        s("profile errors: tied assignments; profile type in {derived, manual}; full product of the other factors", &tied, &[PName::Dev, PName::ProdEu], &PMODES_ERR, &DMODES, &TARGETS, FMode::All);
+        s("missing <profile>.yml", &without(&union, PROF), &every, &[EnvValid, Explicit], &DMODES, &TARGETS, FMode::NoProfileFile);
+        s("missing base.yml", &without(&union, BASE), &every, &[EnvValid, Explicit], &DMODES, &TARGETS, FMode::NoBaseFile);
+        s("missing both files", &without(&union, BASE | PROF), &every, &[EnvValid, Explicit], &DMODES, &TARGETS, FMode::NoFiles);
+        s("missing directory", &without(&union, BASE | PROF), &every, &[EnvValid, Explicit], &DMODES, &TARGETS, FMode::NoDir);
+        s("split directory (observation): tied + lists assignments", &small, &every, &[EnvValid], &rel_with_ancestor, &[Target::Option, Target::Required], FMode::SplitDir);
     } else {
-        // quick: every slice keeps all 512 assignments (or all compatible ones) and frees one or
-        // two of the other factors, the rest fixed; together every factor value is reached.
-        slices.push(Slice { name: "main/targets x profiles (pmode=env-valid, dmode=rel-cwd-default)", assigns: all.clone(), profiles: both.clone(), pmodes: vec![PMode::EnvValid], dmodes: vec![DMode::RelCwdDefault], targets: TARGETS.to_vec(), files: FMode::All });
-        slices.push(Slice { name: "main/pmodes x targets (profile=prod, dmode=rel-parent-default)", assigns: all.clone(), profiles: vec!["prod"], pmodes: PMODES_OK.to_vec(), dmodes: vec![DMode::RelParentDefault], targets: TARGETS.to_vec(), files: FMode::All });
-        slices.push(Slice { name: "main/dmodes x pmodes{explicit,env-valid} (profile=dev, target=required)", assigns: all.clone(), profiles: vec!["dev"], pmodes: vec![PMode::Explicit, PMode::EnvValid], dmodes: DMODES.to_vec(), targets: vec![Target::Required], files: FMode::All });
-        slices.push(Slice { name: "main/dmodes (profile=prod, pmode=explicit-env-other, target=deny-unknown)", assigns: all.clone(), profiles: vec!["prod"], pmodes: vec![PMode::ExplicitEnvOther], dmodes: DMODES.to_vec(), targets: vec![Target::DenyUnknown], files: FMode::All });
-        slices.push(Slice { name: "profile errors/emodes (dmode=rel-cwd-default, target=option)", assigns: all.clone(), profiles: vec!["dev"], pmodes: PMODES_ERR.to_vec(), dmodes: vec![DMode::RelCwdDefault], targets: vec![Target::Option], files: FMode::All });
-        slices.push(Slice { name: "profile errors/emodes x dmodes x targets (assignment fixed: every key in every source)", assigns: vec![[7, 7, 7]], profiles: vec!["dev"], pmodes: PMODES_ERR.to_vec(), dmodes: DMODES.to_vec(), targets: TARGETS.to_vec(), files: FMode::All });
-        for (fm, asg, name) in [
-            (FMode::NoProfileFile, without(PROF), "missing <profile>.yml (pmode=env-valid)"),
-            (FMode::NoBaseFile, without(BASE), "missing base.yml (pmode=env-valid)"),
-            (FMode::NoFiles, without(BASE | PROF), "missing both files (pmode=env-valid)"),
-            (FMode::NoDir, without(BASE | PROF), "missing directory (pmode=env-valid)"),
+        // quick: every slice keeps a complete assignment set (tied = scalar keys over 8^3 with
+        // l tied to a's subset and b.m = rot(l); lists = l x b.m over 8x8) and frees one or two of
+        // the other factors, the rest fixed; together every value of every factor is reached.
+        let tied = tied_assigns();
+        let lists = list_assigns();
+        let union: Vec<Assign> = tied.iter().chain(lists.iter()).copied().collect::<BTreeSet<_>>().into_iter().collect();
+        let dense: [Assign; 2] = [[7; NK], [3; NK]];
+        s("main/targets x profiles{dev,prod} (tied; pmode=env-valid, dmode=rel-cwd-default)", &tied, &[PName::Dev, PName::Prod], &[EnvValid], &[RelCwdDefault], &TARGETS, FMode::All);
+        s("main/pmodes x targets (tied; profile=prod, dmode=rel-parent-default)", &tied, &[PName::Prod], &PMODES_OK, &[RelParentDefault], &TARGETS, FMode::All);
+        s("main/dmodes x pmodes{explicit,env-valid} (tied; profile=dev, target=required)", &tied, &[PName::Dev], &[Explicit, EnvValid], &DMODES, &[Target::Required], FMode::All);
+        s("main/dmodes (tied; profile=prod, pmode=explicit-env-other, target=deny-unknown)", &tied, &[PName::Prod], &[ExplicitEnvOther], &DMODES, &[Target::DenyUnknown], FMode::All);
+        s("lists (l x b.m 8x8 x 3 scalar configurations) x profiles{dev,prod.eu} x pmodes{env-valid,explicit} x dmodes{rel-cwd-default,absolute} x targets{option,required}", &lists, &[PName::Dev, PName::ProdEu], &[EnvValid, Explicit], &[RelCwdDefault, Absolute], &[Target::Option, Target::Required], FMode::All);
+        s("dotted profiles{prod.eu,prod.us} x pmodes{env-valid,explicit} (tied; dmode=rel-cwd-default, target=option)", &tied, &dotted, &[EnvValid, Explicit], &[RelCwdDefault], &[Target::Option], FMode::All);
+        s("dotted profiles x pmodes x dmodes x targets (assignments: every key everywhere / every key in both files)", &dense, &dotted, &PMODES_OK, &DMODES, &TARGETS, FMode::All);
+        s("profile errors/emodes (tied; derived profile type, dmode=rel-cwd-default, target=option)", &tied, &[PName::Dev], &PMODES_ERR, &[RelCwdDefault], &[Target::Option], FMode::All);
+        s("profile errors/emodes x profile type x dmodes x targets (assignment: every key everywhere)", &dense[..1], &[PName::Dev, PName::ProdEu], &PMODES_ERR, &DMODES, &TARGETS, FMode::All);
+        for (fm, asg, name, name2) in [
+            (FMode::NoProfileFile, without(&union, PROF), "missing <profile>.yml x dmodes x targets (profile=dev, pmode=env-valid)", "missing <profile>.yml, dotted (profile=prod.eu, pmode=explicit, dmode=rel-cwd-default, target=option)"),
+            (FMode::NoBaseFile, without(&union, BASE), "missing base.yml x dmodes x targets (profile=dev, pmode=env-valid)", "missing base.yml, dotted (profile=prod.eu, pmode=explicit, dmode=rel-cwd-default, target=option)"),
+            (FMode::NoFiles, without(&union, BASE | PROF), "missing both files x dmodes x targets (profile=dev, pmode=env-valid)", "missing both files, dotted (profile=prod.eu, pmode=explicit, dmode=rel-cwd-default, target=option)"),
+            (FMode::NoDir, without(&union, BASE | PROF), "missing directory x dmodes x targets (profile=dev, pmode=env-valid)", "missing directory, dotted (profile=prod.eu, pmode=explicit, dmode=rel-cwd-default, target=option)"),
         ] {
-            slices.push(Slice { name, assigns: asg, profiles: vec!["dev"], pmodes: vec![PMode::EnvValid], dmodes: DMODES.to_vec(), targets: TARGETS.to_vec(), files: fm });
+            s(name, &asg, &[PName::Dev], &[EnvValid], &DMODES, &TARGETS, fm);
+            s(name2, &asg, &[PName::ProdEu], &[Explicit], &[RelCwdDefault], &[Target::Option], fm);
         }
-        slices.push(Slice { name: "split directory (observation; profile=dev, dmode=rel-cwd-default, target=option)", assigns: all.clone(), profiles: vec!["dev"], pmodes: vec![PMode::EnvValid], dmodes: vec![DMode::RelCwdDefault], targets: vec![Target::Option], files: FMode::SplitDir });
+        s("split directory (observation; tied; profile=dev, dmode=rel-cwd-default, target=option)", &tied, &[PName::Dev], &[EnvValid], &[RelCwdDefault], &[Target::Option], FMode::SplitDir);
     }
     let mut set = BTreeSet::new();
     let mut desc = Vec::new();
     for s in &slices {
         let before = set.len();
         let generated = s.expand(&mut set);
-        desc.push(json!({"slice": s.name, "generated": generated, "new_distinct_cases": set.len() - before}));
+        desc.push(json!({"slice": s.name, "assignments": s.assigns.len(), "generated": generated, "new_distinct_cases": set.len() - before}));
     }
     (set.into_iter().collect(), desc)
 }
 
 fn control_cases() -> Vec<Case> {
-    ["dev", "prod"]
+    PNAMES
         .iter()
         .map(|p| Case {
-            assign: [7, 7, 7],
-            profile: p.to_string(),
+            assign: [7; NK],
+            profile: *p,
             // PX_PROFILE is not set in the control, so that it says nothing about PX_PROFILE itself
             pmode: PMode::Explicit,
             dmode: DMode::RelCwdDefault,
@@ -885,12 +1095,163 @@ fn control_cases() -> Vec<Case> {
 }
 
 // ---------------------------------------------------------------------------------------------
+// Per-thread statistics (cases are judged by the worker that ran them; only counters, the first
+// case of every sample kind and the first case of every violation key are kept)
+// ---------------------------------------------------------------------------------------------
+
+type Hist = BTreeMap<String, usize>;
+
+#[derive(Default)]
+struct Stats {
+    evaluated: usize,
+    nontrivial: usize,
+    conforming: usize,
+    controls_ok: usize,
+    outcome: Hist,
+    branch: Hist,
+    factor: Hist,
+    winner: Hist,
+    missing: Hist,
+    split: Hist,
+    distinct_assign: BTreeSet<Assign>,
+    /// sample kind -> (case index, observation) with the lowest index
+    sample: BTreeMap<String, (usize, Observed)>,
+    /// violation key -> (case index, observation, description) with the lowest index
+    first_fail: BTreeMap<String, (usize, Observed, String)>,
+    fail_count: Hist,
+}
+
+fn bump(h: &mut Hist, k: String) {
+    *h.entry(k).or_default() += 1;
+}
+
+impl Stats {
+    fn absorb(&mut self, o: Stats) {
+        self.evaluated += o.evaluated;
+        self.nontrivial += o.nontrivial;
+        self.conforming += o.conforming;
+        self.controls_ok += o.controls_ok;
+        for (dst, src) in [
+            (&mut self.outcome, o.outcome),
+            (&mut self.branch, o.branch),
+            (&mut self.factor, o.factor),
+            (&mut self.winner, o.winner),
+            (&mut self.missing, o.missing),
+            (&mut self.split, o.split),
+            (&mut self.fail_count, o.fail_count),
+        ] {
+            for (k, v) in src {
+                *dst.entry(k).or_default() += v;
+            }
+        }
+        self.distinct_assign.extend(o.distinct_assign);
+        for (k, v) in o.sample {
+            match self.sample.get(&k) {
+                Some(cur) if cur.0 <= v.0 => {}
+                _ => {
+                    self.sample.insert(k, v);
+                }
+            }
+        }
+        for (k, v) in o.first_fail {
+            match self.first_fail.get(&k) {
+                Some(cur) if cur.0 <= v.0 => {}
+                _ => {
+                    self.first_fail.insert(k, v);
+                }
+            }
+        }
+    }
+
+    fn record(&mut self, idx: usize, case: &Case, obs: Observed) {
+        let exp = expect(case);
+        if case.control_unknown_env {
+            // machinery control: deny_unknown_fields must be effective for unknown PX_ keys,
+            // otherwise the PX_PROFILE check on that target would be vacuous
+            match &obs {
+                Observed::Err { chain } if err_class(chain) == "unknown-field" => self.controls_ok += 1,
+                other => verif_common::machinery_error(&format!(
+                    "control failed: PX_ZZZ=1 with a deny_unknown_fields target gave {}",
+                    other.to_json()
+                )),
+            }
+            return;
+        }
+        self.evaluated += 1;
+        self.distinct_assign.insert(case.assign);
+        bump(&mut self.factor, format!("profile={}", case.profile.as_str()));
+        bump(&mut self.factor, format!("profile-type={}", case.profile.ptype()));
+        bump(&mut self.factor, format!("pmode={}", name_of(case.pmode)));
+        bump(&mut self.factor, format!("dmode={}", name_of(case.dmode)));
+        bump(&mut self.factor, format!("target={}", name_of(case.target)));
+        bump(&mut self.factor, format!("files={}", name_of(case.files)));
+        let branch = match &exp {
+            Expect::MustErr(r) => format!("must-err:{r}"),
+            Expect::MustOk(_) => "must-ok".to_string(),
+            Expect::ErrOrOk(_) => format!("missing-file-weak-oracle:{}", name_of(case.files)),
+            Expect::SplitEither { .. } => "split-dir-either-reading".to_string(),
+        };
+        bump(&mut self.branch, branch.clone());
+        let oc = obs.class();
+        bump(&mut self.outcome, oc.clone());
+        // non-trivial: precedence had to decide between >= 2 sources for some key, or an error is forced
+        if case.assign.iter().any(|b| b.count_ones() >= 2) || matches!(exp, Expect::MustErr(_)) {
+            self.nontrivial += 1;
+        }
+        if let (Expect::MustOk(want), Observed::Ok { vals, .. }) = (&exp, &obs) {
+            for k in 0..NK {
+                if want[k] == vals[k] {
+                    bump(&mut self.winner, format!("{}<-{}(of {})", KEYS[k], tag_of(k, &want[k]), sources_of(case.assign[k]).join("+")));
+                }
+            }
+        }
+        if matches!(exp, Expect::ErrOrOk(_)) {
+            bump(&mut self.missing, format!("{}:{}", name_of(case.files), oc));
+        }
+        if let (Expect::SplitEither { docs, code }, Observed::Ok { vals, .. }) = (&exp, &obs) {
+            let k = if docs == code {
+                "readings-indistinguishable"
+            } else if vals == code {
+                "profile-file-taken-from-farther-directory(code reading)"
+            } else if vals == docs {
+                "farther-directory-ignored(docs reading)"
+            } else {
+                "mixed"
+            };
+            bump(&mut self.split, k.into());
+        }
+        let verdicts = judge(case, &exp, &obs);
+        if verdicts.is_empty() {
+            self.conforming += 1;
+            let kind = format!("{branch}/{oc}/{}", case.profile.ptype());
+            match self.sample.get(&kind) {
+                Some(cur) if cur.0 <= idx => {}
+                _ => {
+                    self.sample.insert(kind, (idx, obs));
+                }
+            }
+            return;
+        }
+        for (key, what) in verdicts {
+            bump(&mut self.fail_count, key.clone());
+            match self.first_fail.get(&key) {
+                Some(cur) if cur.0 <= idx => {}
+                _ => {
+                    self.first_fail.insert(key, (idx, obs.clone(), what));
+                }
+            }
+        }
+    }
+}
+
+// ---------------------------------------------------------------------------------------------
 // main
 // ---------------------------------------------------------------------------------------------
 
 fn replay_doc(case: &Case, su: &Setup, exp: &Expect, obs: &Observed) -> Value {
     json!({
         "case": case,
+        "profile_type": case.profile.ptype(),
         "environment_of_child": su.env,
         "cwd_of_child": su.cwd.display().to_string(),
         "configuration_dir_argument": su.confdir_arg,
@@ -912,7 +1273,8 @@ fn main() {
     }
     let exe = std::env::current_exe()
         .unwrap_or_else(|e| verif_common::machinery_error(&format!("current_exe: {e}")));
-    let scratch = PathBuf::from(SCRATCH);
+    // one private sub-directory per run, so that concurrent runs of this engine cannot interfere
+    let scratch = PathBuf::from(SCRATCH).join(format!("run-{}", std::process::id()));
     // an ancestor of the scratch area must not contain a stray configuration directory
     for anc in scratch.ancestors() {
         for n in ["configuration", "settings"] {
@@ -926,8 +1288,9 @@ fn main() {
         let doc = verif_common::load_replay(path);
         let case: Case = serde_json::from_value(doc.get("case").cloned().unwrap_or(doc.clone()))
             .unwrap_or_else(|e| verif_common::machinery_error(&format!("replay case unreadable: {e}")));
-        let root = scratch.join("replay");
-        let (obs, su) = run_case(&case, &root, &exe);
+        let mut sc = Scratch::new(scratch.join("replay"));
+        sc.cleanup();
+        let (obs, su) = run_case(&case, &mut sc, &exe);
         let exp = expect(&case);
         let verdicts = judge(&case, &exp, &obs);
         println!("case:     {}", serde_json::to_string(&case).unwrap());
@@ -935,7 +1298,9 @@ fn main() {
         println!("cwd:      {}", su.cwd.display());
         println!("expected: {}", exp_json(&exp));
         println!("observed: {}", obs.to_json());
-        let _ = std::fs::remove_dir_all(&root);
+        sc.cleanup();
+        let _ = std::fs::remove_dir_all(&scratch);
+        let _ = std::fs::remove_dir(SCRATCH);
         if verdicts.is_empty() {
             println!("REPLAY: conforms");
             std::process::exit(0);
@@ -948,8 +1313,8 @@ fn main() {
 
     // watchdog: the machinery itself must not hang
     std::thread::spawn(|| {
-        std::thread::sleep(std::time::Duration::from_secs(40 * 60));
-        verif_common::machinery_error("rt_config watchdog: run exceeded 40 minutes");
+        std::thread::sleep(std::time::Duration::from_secs(45 * 60));
+        verif_common::machinery_error("rt_config watchdog: run exceeded 45 minutes");
     });
 
     let mut rep = verif_common::Reporter::from_args(&args);
@@ -967,26 +1332,28 @@ fn main() {
         .unwrap_or_else(|e| verif_common::machinery_error(&format!("mkdir {SCRATCH}: {e}")));
 
     let next = AtomicUsize::new(0);
-    let mut results: Vec<Option<Observed>> = vec![None; cases.len()];
-    let chunks: Vec<Vec<(usize, Observed)>> = std::thread::scope(|s| {
+    let parts: Vec<Stats> = std::thread::scope(|s| {
         let handles: Vec<_> = (0..WORKERS)
             .map(|w| {
                 let cases = &cases;
                 let next = &next;
                 let exe = &exe;
-                let root = scratch.join(format!("w{w}"));
+                let mut sc = Scratch::new(scratch.join(format!("w{w}")));
                 s.spawn(move || {
-                    let mut local = Vec::new();
+                    let mut st = Stats::default();
                     loop {
-                        let i = next.fetch_add(1, Ordering::Relaxed);
-                        if i >= cases.len() {
+                        // small blocks of consecutive cases: consecutive cases share most files
+                        let start = next.fetch_add(8, Ordering::Relaxed);
+                        if start >= cases.len() {
                             break;
                         }
-                        let (obs, _) = run_case(&cases[i], &root, exe);
-                        local.push((i, obs));
+                        for i in start..(start + 8).min(cases.len()) {
+                            let (obs, _) = run_case(&cases[i], &mut sc, exe);
+                            st.record(i, &cases[i], obs);
+                        }
                     }
-                    let _ = std::fs::remove_dir_all(&root);
-                    local
+                    sc.cleanup();
+                    st
                 })
             })
             .collect();
@@ -995,121 +1362,25 @@ fn main() {
             .map(|h| h.join().unwrap_or_else(|_| verif_common::machinery_error("worker thread panicked")))
             .collect()
     });
-    for c in chunks {
-        for (i, o) in c {
-            results[i] = Some(o);
-        }
+    let mut st = Stats::default();
+    for p in parts {
+        st.absorb(p);
+    }
+    if st.evaluated != n_planned || st.controls_ok != n_controls {
+        verif_common::machinery_error(&format!(
+            "planned {n_planned}+{n_controls} cases but judged {}+{}",
+            st.evaluated, st.controls_ok
+        ));
     }
 
-    // ---- judge, count ----
-    let mut samples = verif_common::Samples::new(14);
-    let mut sample_kinds: BTreeSet<String> = BTreeSet::new();
-    let mut outcome_hist: BTreeMap<String, usize> = BTreeMap::new();
-    let mut branch_hist: BTreeMap<String, usize> = BTreeMap::new();
-    let mut factor_hist: BTreeMap<String, usize> = BTreeMap::new();
-    let mut winner_hist: BTreeMap<String, usize> = BTreeMap::new();
-    let mut missing_obs: BTreeMap<String, usize> = BTreeMap::new();
-    let mut split_obs: BTreeMap<String, usize> = BTreeMap::new();
-    let mut nontrivial: BTreeSet<&Case> = BTreeSet::new();
-    let mut distinct_assign: BTreeSet<[u8; 3]> = BTreeSet::new();
-    let mut conforming = 0usize;
-    let mut reported_keys: BTreeSet<String> = BTreeSet::new();
-    let root = scratch.join("recheck");
-    for (i, case) in cases.iter().enumerate() {
-        let obs = results[i].clone().unwrap_or_else(|| verif_common::machinery_error("case without result"));
-        let exp = expect(case);
-        if case.control_unknown_env {
-            // machinery control: deny_unknown_fields must be effective for unknown PX_ keys,
-            // otherwise the PX_PROFILE check on that target would be vacuous
-            match &obs {
-                Observed::Err { chain } if err_class(chain) == "unknown-field" => {
-                    *branch_hist.entry("control:unknown-env-key-rejected-by-deny_unknown_fields".into()).or_default() += 1;
-                }
-                other => verif_common::machinery_error(&format!(
-                    "control failed: PX_ZZZ=1 with a deny_unknown_fields target gave {}",
-                    other.to_json()
-                )),
-            }
-            continue;
-        }
-        distinct_assign.insert(case.assign);
-        for (f, v) in [
-            ("profile", json!(case.profile)),
-            ("pmode", json!(case.pmode)),
-            ("dmode", json!(case.dmode)),
-            ("target", json!(case.target)),
-            ("files", json!(case.files)),
-        ] {
-            *factor_hist.entry(format!("{f}={}", v.as_str().unwrap_or("?"))).or_default() += 1;
-        }
-        let branch = match &exp {
-            Expect::MustErr(r) => format!("must-err:{r}"),
-            Expect::MustOk(_) => "must-ok".to_string(),
-            Expect::ErrOrOk(_) => format!("missing-file-weak-oracle:{}", json!(case.files).as_str().unwrap_or("?")),
-            Expect::SplitEither { .. } => "split-dir-either-reading".to_string(),
-        };
-        *branch_hist.entry(branch.clone()).or_default() += 1;
-        let oc = match &obs {
-            Observed::Ok { .. } => "ok".to_string(),
-            Observed::Err { chain } => format!("err:{}", err_class(chain)),
-            Observed::Panic { .. } => "panic".to_string(),
-        };
-        *outcome_hist.entry(oc.clone()).or_default() += 1;
-        // non-trivial: precedence had to decide between >= 2 sources for some key, or an error is forced
-        let collides = case.assign.iter().any(|b| b.count_ones() >= 2);
-        if collides || matches!(exp, Expect::MustErr(_)) {
-            nontrivial.insert(case);
-        }
-        if let (Expect::MustOk(want), Observed::Ok { .. }) = (&exp, &obs) {
-            for k in 0..3 {
-                *winner_hist
-                    .entry(format!("{}<-{}(of {})", KEYS[k], tag_of(k, &want[k]), sources_of(case.assign[k]).join("+")))
-                    .or_default() += 1;
-            }
-        }
-        if matches!(exp, Expect::ErrOrOk(_)) {
-            *missing_obs
-                .entry(format!("{}:{}", json!(case.files).as_str().unwrap_or("?"), oc))
-                .or_default() += 1;
-        }
-        if let (Expect::SplitEither { docs, code }, Observed::Ok { vals, .. }) = (&exp, &obs) {
-            if docs != code {
-                let k = if vals == code {
-                    "profile-file-taken-from-farther-directory(code reading)"
-                } else if vals == docs {
-                    "farther-directory-ignored(docs reading)"
-                } else {
-                    "mixed"
-                };
-                *split_obs.entry(k.into()).or_default() += 1;
-            } else {
-                *split_obs.entry("readings-indistinguishable".into()).or_default() += 1;
-            }
-        }
-        let verdicts = judge(case, &exp, &obs);
-        if verdicts.is_empty() {
-            conforming += 1;
-            let kind = format!("{branch}/{oc}");
-            if sample_kinds.insert(kind) {
-                let su = setup(case, &root);
-                samples.push(|| replay_doc(case, &su, &exp, &obs));
-            }
-            continue;
-        }
-        // determinism: re-execute once before reporting (only the first case of every key is
-        // written out by the Reporter, so only that one needs the re-execution)
-        let fresh = verdicts.iter().any(|(k, _)| !reported_keys.contains(k));
-        if !fresh {
-            for (key, what) in verdicts {
-                rep.violation(&key, &what, Value::Null);
-            }
-            continue;
-        }
-        for (k, _) in &verdicts {
-            reported_keys.insert(k.clone());
-        }
-        let (obs2, su) = run_case(case, &root, &exe);
-        if obs2 != obs {
+    // ---- report violations: first case of every key, re-executed once for determinism ----
+    let mut sc = Scratch::new(scratch.join("recheck"));
+    let mut fails: Vec<(&String, &(usize, Observed, String))> = st.first_fail.iter().collect();
+    fails.sort_by_key(|(k, v)| (v.0, (*k).clone()));
+    for (key, (idx, obs, what)) in fails {
+        let case = &cases[*idx];
+        let (obs2, su) = run_case(case, &mut sc, &exe);
+        if &obs2 != obs {
             verif_common::machinery_error(&format!(
                 "nondeterministic outcome for case {}: first {}, then {}",
                 serde_json::to_string(case).unwrap(),
@@ -1117,31 +1388,42 @@ fn main() {
                 obs2.to_json()
             ));
         }
-        for (key, what) in verdicts {
-            let what = format!("{what} — case {}", serde_json::to_string(case).unwrap());
-            rep.violation(&key, &what, replay_doc(case, &su, &exp, &obs));
-        }
+        let what = format!("{what} — case {}", serde_json::to_string(case).unwrap());
+        rep.violation(key, &what, replay_doc(case, &su, &expect(case), obs));
+        rep.suppressed += st.fail_count.get(key).copied().unwrap_or(1) - 1;
+    }
+    // ---- samples: the first case of every (oracle branch, outcome, profile type) kind ----
+    let mut samples = verif_common::Samples::new(16);
+    let mut picks: Vec<&(usize, Observed)> = st.sample.values().collect();
+    picks.sort_by_key(|v| v.0);
+    for (idx, obs) in picks.into_iter().take(16) {
+        let case = &cases[*idx];
+        let su = setup(case, &mut sc);
+        samples.push(|| replay_doc(case, &su, &expect(case), obs));
     }
     let _ = std::fs::remove_dir_all(&scratch);
+    // removes the shared parent only when no other run is using it
+    let _ = std::fs::remove_dir(SCRATCH);
 
-    let evaluations = n_planned;
     let coverage = json!({
-        "evaluations": evaluations,
-        "distinct_nontrivial": nontrivial.len(),
+        "evaluations": st.evaluated,
+        "distinct_nontrivial": st.nontrivial,
         "exhaustive": true,
-        "rule": "Alphabet: keys {a, b.c, b.d} (b.* nested: YAML mapping / PX_B__C, PX_B__D), each key assigned to a subset of {base.yml, <profile>.yml, PX_ env} (8^3 = 512 assignments) with source-tagged distinct values (a-base/a-profile/a-env, c-*, 11/22/33); profile in {dev, prod} (enum deriving ConfigProfile with #[px(profile=..)]); profile supply in {PX_PROFILE valid, .profile() with PX_PROFILE unset / set to the other profile / set to an invalid name} plus error modes {PX_PROFILE unset, =staging, =empty, no .profile()}; directory in {default `configuration` in cwd, named `settings` in cwd, default in parent of cwd, named in grandparent, absolute via .configuration_dir()}; target in {all-Option, required, deny_unknown_fields, probe struct with a field named `profile`}; file presence in {both files present (with a decoy directory holding different values one search step further, plus the other profile's file and staging.yml with different values), profile file missing, base file missing, both missing, directory missing, split directory}. Bound: thorough = the full product of the factors per family; quick = the union of the slices listed under `slices` (each slice keeps all compatible assignments and fixes the factors named in its label). Every case runs the real ConfigLoader::load in a fresh child process with env_clear + only the case's PX_ variables and a controlled cwd (the child echoes its environment and cwd, verified). Oracle (reference model `expect`): per key env > profile file > base file, None/absent if nowhere; required target with a key nowhere => Err; no .profile() and PX_PROFILE unset/invalid/empty => Err; .profile(p) wins over PX_PROFILE; values of the decoy directory / other profile / staging file never surface; PX_PROFILE never fails a deny_unknown_fields struct nor populates a field named `profile`; missing file/directory: weak oracle (Err accepted, Ok must still follow precedence over the existing sources); split directory: either reading accepted (observation only). Non-trivial = precedence had to choose between >= 2 sources for at least one key, or an error is forced by the property; distinct = distinct Case tuples (counted in a set).",
+        "rule": "Alphabet: keys {a (string), b.c (string), b.d (u64), l (list of strings), b.m (list of strings)}; b.* nested (YAML mapping / PX_B__C, PX_B__D, PX_B__M); each key assigned to a subset of {base.yml, <profile>.yml, PX_ env} with source-tagged distinct values (a-base/a-profile/a-env, c-*, 11/22/33; lists l-<src>-<i>, m-<src>-<i> with source-dependent lengths 2/3/1 and 1/2/3, env lists written in figment's documented syntax PX_L=[\"l-env-1\"]). Assignment sets: `main` = a, b.c, b.d, l over all 8^4 subsets with b.m = rot(l) (base->profile->env->base); `lists` = l x b.m over all 8x8 subset pairs x 3 scalar configurations; `tied` = a, b.c, b.d over all 8^3 subsets, l tied to a's subset, b.m = rot(l). Thorough uses main for the derived profiles and tied + lists for the hand-written dotted profiles, the error and the split-directory families; quick uses tied + lists. Profile in {dev, prod} (enum deriving ConfigProfile with #[px(profile=..)]) and {prod.eu, prod.us} (hand-written ConfigProfile impl whose names contain a dot; a file prod.yml with different values sits next to prod.eu.yml / prod.us.yml); profile supply in {PX_PROFILE valid, .profile() with PX_PROFILE unset / set to the other profile / set to an invalid name} plus error modes {PX_PROFILE unset, =staging, =empty, no .profile()}; directory in {default `configuration` in cwd, named `settings` in cwd, default in parent of cwd, named in grandparent, absolute via .configuration_dir()}; target in {all-Option, required, deny_unknown_fields, probe struct with a field named `profile`}; file presence in {both files present (with a decoy directory holding different values one search step further, plus the other profile's file and staging.yml with different values), profile file missing, base file missing, both missing, directory missing, split directory}. Bound: thorough = the full product of the factors per family as listed under `slices`; quick = the union of the slices listed under `slices` (each keeps a complete assignment set and fixes the factors named in its label). Every case runs the real ConfigLoader::load in a fresh child process with env_clear + only the case's PX_ variables and a controlled cwd (the child echoes its environment and cwd, verified). Oracle (reference model `expect`): per key env > profile file > base file by whole-value replacement (lists are replaced, never concatenated or merged index-wise), None/absent if nowhere; required target with a key nowhere => Err; no .profile() and PX_PROFILE unset/invalid/empty => Err; .profile(p) wins over PX_PROFILE; values of the decoy directory / other profile / staging.yml / prod.yml (for dotted names) never surface; PX_PROFILE never fails a deny_unknown_fields struct nor populates a field named `profile`; missing file/directory: weak oracle (Err accepted, Ok must still follow precedence over the existing sources); split directory: either reading accepted (observation only). Non-trivial = precedence had to choose between >= 2 sources for at least one key, or an error is forced by the property; cases are distinct Case tuples (deduplicated in a set before execution), so the count is of distinct cases.",
         "slices": slices,
-        "distinct_assignments_reached": distinct_assign.len(),
+        "distinct_assignments_reached": st.distinct_assign.len(),
         "control_cases": n_controls,
-        "conforming_cases": conforming,
+        "control_cases_passed(unknown PX_ key rejected by deny_unknown_fields)": st.controls_ok,
+        "conforming_cases": st.conforming,
         "child_processes_spawned": SPAWNED.load(Ordering::Relaxed),
         "parallel_children": WORKERS,
-        "factor_value_counts": factor_hist,
-        "oracle_branch_counts": branch_hist,
-        "outcome_histogram": outcome_hist,
-        "verified_winner_histogram(key<-winning source(of defining sources))": winner_hist,
-        "missing_file_observations": missing_obs,
-        "split_directory_observations": split_obs,
+        "factor_value_counts": st.factor,
+        "oracle_branch_counts": st.branch,
+        "outcome_histogram": st.outcome,
+        "verified_winner_histogram(key<-winning source(of defining sources))": st.winner,
+        "missing_file_observations": st.missing,
+        "split_directory_observations": st.split,
+        "violating_cases_per_key": st.fail_count,
         "caps_hit": [],
         "samples": samples.items,
     });
@@ -1149,11 +1431,12 @@ fn main() {
         "exploration",
         coverage,
         &[
-            "Values are strings for a and b.c and an unsigned integer for b.d; other value types (lists, booleans, maps set as a whole through one env variable) are not enumerated.",
-            "Depth of nesting is 2 (b.c, b.d); the `__` separator is exercised with exactly one level.",
+            "Value types: strings (a, b.c), unsigned integer (b.d), lists of strings (l, b.m); booleans, floats, lists of maps and maps set as a whole through one env variable are not enumerated.",
+            "Depth of nesting is 2 (b.c, b.d, b.m); the `__` separator is exercised with exactly one level.",
+            "Env lists use the syntax figment's Env provider documents (`[..]` array of `\"..\"` strings); that such a value replaces the files' list as a whole is what 'takes each key from the environment if present' forces.",
             "A missing <profile>.yml / base.yml / directory is NOT asserted to be an error: neither the property text ('missing profile' = PX_PROFILE not supplied) nor the guide documents it as one; observed outcomes are recorded under missing_file_observations.",
             "The split-directory family is an observation (docs: search stops at the first matching directory; figment searches per file), not part of the verdict.",
-            "Profile names outside the enum are represented by `staging` and the empty string.",
+            "Profile names outside the enum are represented by `staging` and the empty string; dotted profile names by prod.eu / prod.us.",
         ],
     );
     std::process::exit(code);
